@@ -40,6 +40,15 @@ pub fn gen_case(r: &mut Rng, out: &mut String) {
     writeln!(out, "deser unchk b2 {}", h).unwrap();
     writeln!(out, "dump b2").unwrap();
     writeln!(out, "eq b2 b0").unwrap();
+    if r.chance(1, 3) {
+        // the same stream through a reader that hands out the bytes in small pieces (with interruptions): what is decoded
+        // does not depend on how the reader splits the stream
+        let m = if r.chance(1, 2) { "chk" } else { "unchk" };
+        writeln!(out, "new b3").unwrap();
+        writeln!(out, "deser_sched {} b3 {} {}", m, super::c14::sched(r), h).unwrap();
+        writeln!(out, "eq b3 b0").unwrap();
+        writeln!(out, "expect true").unwrap();
+    }
     let set = stream::set_of(&g.chunks);
     if !set.is_empty() && count_runs(&set) <= 80 {
         native_build(out, "b1", &set);
